@@ -31,19 +31,43 @@ from .. import common as C
 from . import _an
 
 PROP = "C14"
-GEN_REGIONS = ["CoreKernels", "Attrs"]
+GEN_REGIONS = ["CoreKernels", "Attrs", "ConfigGlue"]
 THEOREMS = {
     "SpecKitV.Props.C14": ["Par.prange_any_schedule", "Par.prange_schedules_agree", "Par.prange_frame"],
     "SpecKitV.Lemmas.AnalyzerGlue": [
         "Model.planStep_fresh_ok", "Model.history_independent", "Model.history_independent_list", "Model.plan_cached_unchanged",
         "Model.lazyGet_sound", "Model.lazyRun_sound", "Model.lazyRun_empty", "Model.lazy_order_independent", "Model.lazy_order_perm",
         "Model.lazyGet_cached", "Model.coreLoop_eq_map"],
+    # the decision and state logic of SpectrumAnalyzer as TRANSLATED from analysis.py each run (Gen/ConfigGlue.lean) = the hand model / specification
+    "SpecKitV.Props.ConfigGlueGen": [
+        "ConfigGlue.gen_cg_plan_eq_model", "ConfigGlue.gen_plan_cached_unchanged", "ConfigGlue.gen_step_eq_model", "ConfigGlue.gen_run_eq_model",
+        "ConfigGlue.gen_history_independent_list", "ConfigGlue.gen_history_independent", "ConfigGlue.gen_history_dependent_after_failure",
+        "ConfigGlue.gen_sched_eq_spec", "ConfigGlue.gen_sched_new_ltf", "ConfigGlue.gen_sched_callable",
+        "ConfigGlue.gen_request_eq_spec", "ConfigGlue.gen_request_L_exact", "ConfigGlue.gen_request_fres", "ConfigGlue.gen_request_fres_not_exact",
+        "ConfigGlue.gen_window_eq_spec", "ConfigGlue.kaiser_rov_range", "ConfigGlue.kaiser_alpha_ge_half", "ConfigGlue.gen_window_kaiser",
+        "ConfigGlue.gen_window_explicit_olap", "ConfigGlue.gen_window_explicit_olap_ok", "ConfigGlue.gen_window_final_olap_range_partial",
+        "ConfigGlue.gen_window_final_olap_negative"],
 }
 CONTRACTS = [
     "Numba's prange executes every iteration of the loop body at least once, each as the sequential body with its own private scalars "
     "(parfor semantics); the premise 'every prange loop is a map loop' (stores only at [j], nothing carried, no read of a written array) "
     "is certified by the translator on every run: vk/translate.py raises Unsupported otherwise and region CoreKernels fails",
     "_reduce_stats_nb (np.mean reductions) runs after the parallel loop, in one thread (it is a separate non-parallel njit function)",
+    # region ConfigGlue (lean/SpecKitV/Np/ConfigGlue.lean): the Python-object vocabulary of the translated glue, each a stated contract
+    "CG.PyVal.float? = Python float(v): None raises, bool/int/float convert, a str is parsed by a PARAMETER (the harness supplies CPython's answer)",
+    "CG.PyVal.eqStr = `v == 'literal'` (only a str equals a string literal); CG.PyObj = isinstance(x, str) / callable(x) as constructor tests",
+    "CG.WinFn / CG.SchedId = callables compared BY IDENTITY (numpy.kaiser, scipy.signal.windows.kaiser, numpy.hanning, the four schedulers, "
+    "anything else `custom id`); CG.SchedId.name = f.__name__ (a `def f` has __name__ 'f')",
+    "CG.dictHas / dictGet? / dictHasOpt / dictGetOpt? = `k in d`, `d[k]` on insertion-ordered dicts with string keys (integer keys of olap_dict are "
+    "never hit by a str); CG.is_function_in_dict / get_key_for_function = the two three-line helpers of utils.py",
+    "CG.strLower = str.lower() on ASCII strings; CG.isfinite x = (x - x == 0) = np.isfinite(x) (false exactly for ±inf, NaN)",
+    "CG.SchedKw = the keyword arguments of a scheduler call (a structure: **kwargs are order-free); CG.SchedFn.call = the scheduler as a function "
+    "of its keyword arguments returning a plan or raising; the Jdes search is a function parameter (instantiated in the driver by the TRANSLATED "
+    "utils.find_Jdes_binary_search on the recorded bin counts)",
+    "CG.runSteps / `step i`: statement number i of the tail of plan() after the scheduler call (validation, dtype normalisation, band mask, final "
+    "check) is an OPAQUE function of the plan object that may raise; the translator checks on the AST that none of them touches _plan_cache, "
+    "writes self / self.config, reads config['Jdes'], returns, or rebinds the plan object (so the cached object keeps its identity)",
+    "plan objects are non-empty dicts (truthy): hypothesis hT of the ConfigGlue theorems, used only if the source tests the cache by truthiness",
 ]
 ASSUMPTIONS = [
     "the hardware memory model, LLVM code generation (fastmath vectorisation, false sharing) and the Numba threading layer are NOT modelled: "
@@ -599,20 +623,74 @@ def check_isolation(p: Dict[str, Any], child: Optional[List[Dict[str, str]]] = N
                             "detail": f"{tag} bin {j}: {field} = {obs!r} but the definition on its own plan gives {exp!r} (tol {tol:.3g})"})
         info["ref_fields"] += 6 * len(bins)
     if child is not None and len(child) == 2:
-        for tag, r, dg in (("B", b, child[0]), ("A", a2, child[1])):
+        for tag, case, r, dg in (("B", p["B"], b, child[0]), ("A", p["A"], a2, child[1])):
             mine = digest_out(r)
-            for k in sorted(set(mine) | set(dg)):
+            for k in sorted(k for k in (set(mine) | set(dg)) if not k.startswith("val:")):
                 if mine.get(k) != dg.get(k):
+                    # the property is about ONE process (threads, repetition, interleaving, access order). Across processes the plan and every
+                    # NumPy-computed field must still be identical; a kernel statistic may differ at rounding level (differently compiled code)
+                    if k in STAT and r[0] == "ok" and ("val:" + k) in dg:
+                        try:
+                            with quiet():
+                                a_m = np.ascontiguousarray(getattr(r[2], k))
+                            if rounding_level(case, r[2], k, a_m, _decode_val(dg["val:" + k])):
+                                info["cross_process_rounding"] = info.get("cross_process_rounding", 0) + 1
+                                continue
+                        except Exception:
+                            pass
                     bad.append({"field": k, "clean_process": True,
-                                "detail": f"{tag}: {k} in this process (after other analyses) differs from the value in a clean interpreter"})
+                                "detail": f"{tag}: {k} in this process (after other analyses) differs from the value in a clean interpreter "
+                                          f"by more than the rounding budget of the kernels"})
         info["child"] = True
     return bad, info
 
 
-def digest_out(r) -> Dict[str, str]:
+def digest_out(r, values: bool = False) -> Dict[str, str]:
     if r[0] != "ok":
         return {"raises": r[1]}
-    return {k: digest(s) for k, s in out_sigs(r).items()}
+    d = {k: digest(s) for k, s in out_sigs(r).items()}
+    if values and r[1] != "plan":
+        # the kernel statistics themselves (hex of the raw bytes): two PROCESSES may run differently compiled kernels (a Numba function compiled
+        # in memory is inlined differently from one loaded from the on-disk cache), so across processes these are compared up to rounding
+        with quiet():
+            for k in STAT:
+                a = np.ascontiguousarray(getattr(r[2], k))
+                d["val:" + k] = f"{a.dtype.str}|{','.join(str(n) for n in a.shape)}|{a.tobytes().hex()}"
+    return d
+
+
+def _decode_val(s: str) -> np.ndarray:
+    dt, shp, hx = s.split("|")
+    shape = tuple(int(n) for n in shp.split(",") if n)
+    return np.frombuffer(bytes.fromhex(hx), dtype=np.dtype(dt)).reshape(shape)
+
+
+def rounding_level(case, res, field: str, mine: np.ndarray, other: np.ndarray) -> bool:
+    """is the difference between two evaluations of a kernel statistic within twice the forward rounding budget of the recurrence (the budget
+    every reference comparison in this framework uses, _an.bin_tol) at every bin?  Window sums: relative 1e-12."""
+    if mine.shape != other.shape or mine.dtype != other.dtype:
+        return False
+    if not (np.all(np.isfinite(mine) == np.isfinite(other))):
+        return False
+    if field in ("S12", "S2"):
+        return bool(np.all(np.abs(mine - other) <= 1e-12 * np.maximum(np.abs(mine), np.abs(other)) + 1e-300))
+    o = case["opts"]
+    x1, x2 = channels(case)
+    fs = float(case["fs"])
+    idx = {"XX": 0, "YY": 1, "XY": 2, "M2": 3}[field]
+    for j in range(len(res.f)):
+        if mine.reshape(-1)[j] == other.reshape(-1)[j]:
+            continue
+        L = int(res.L[j])
+        w = _an.window(o["win"], L, o.get("psll"))
+        om = 2 * np.pi * float(res.f[j]) / fs
+        D = [int(d) for d in res.D[j]]
+        a = max(float(np.abs(x1[d:d + L] * w).sum()) for d in D) + 1e-300
+        b = a if x2 is None else max(float(np.abs(x2[d:d + L] * w).sum()) for d in D) + 1e-300
+        tol = _an.bin_tol(L, om, a, b, int(o["order"]))[idx]
+        if not abs(complex(mine.reshape(-1)[j]) - complex(other.reshape(-1)[j])) <= 2 * tol:
+            return False
+    return True
 
 
 def _worker():
@@ -623,7 +701,7 @@ def _worker():
     out = []
     for j in req["jobs"]:
         try:
-            out.append(digest_out(fresh_op(j["case"], j["op"])))
+            out.append(digest_out(fresh_op(j["case"], j["op"]), values=True))
         except LIBERR as ex:
             out.append({"raises": type(ex).__name__})
     sys.stdout.write(json.dumps(out) + "\n")
@@ -783,6 +861,9 @@ def run_payload(P: C.Part, p: Dict[str, Any], as_corr: bool = False, child=None)
         if info["ok"]:
             P.nontrivial.add(("isolation", p["which"], "single" if "op" in p else "full", bool(info.get("child"))))
         P.hit("isolation:" + p["which"])
+        if info.get("cross_process_rounding"):
+            P.unstable += int(info["cross_process_rounding"])
+            P.hit("isolation:cross-process difference at rounding level (differently compiled kernels)", int(info["cross_process_rounding"]))
         if info.get("child"):
             P.hit("isolation:clean-process comparison")
     else:
@@ -853,6 +934,433 @@ def gen_attrs(rng: np.random.Generator, i: int, thorough: bool) -> Dict[str, Any
     return p
 
 
+# ------------------------------------------------------------------------------------------------ region ConfigGlue: generated vs real
+# The decision / state logic of SpectrumAnalyzer TRANSLATED from the current source (Gen/ConfigGlue.lean, driver ops cgwin / cgsched / cgreq /
+# cgrun) against the real class.  Both sides follow the same source, so a disagreement is a translator (or contract) error.
+CG_EXC = {"ValueError", "TypeError", "RuntimeError", "KeyError"}
+
+
+def _hx(s: str) -> str:
+    return s.encode("ascii").hex()
+
+
+def _pv(v) -> str:
+    if v is None:
+        return "n"
+    if isinstance(v, (bool, np.bool_)):
+        return "b:1" if v else "b:0"
+    if isinstance(v, (int, np.integer)):
+        return f"i:{int(v)}"
+    if isinstance(v, (float, np.floating)):
+        return "r:" + C.f2h(float(v))
+    if isinstance(v, str):
+        return "s:" + _hx(v)
+    raise TypeError(f"no wire form for {v!r}")
+
+
+def _exc_name(ex) -> str:
+    n = type(ex).__name__
+    return n if n in CG_EXC else "Other"
+
+
+def _cg_fn(x):
+    pass
+
+
+def _cg_fn2(x):
+    pass
+
+
+def cg_window_cases(rng):
+    """all combinations win x psll x olap (+ two states of the tables win_dict / olap_dict)"""
+    import scipy.signal.windows as sw
+
+    custom = lambda n: np.ones(n)      # noqa: E731
+    wins = [("kaiser", "s:" + _hx("kaiser")), ("Kaiser", "s:" + _hx("Kaiser")), ("KAISER", "s:" + _hx("KAISER")), ("hann", "s:" + _hx("hann")),
+            ("Hanning", "s:" + _hx("Hanning")), ("HANN", "s:" + _hx("HANN")), ("boxcar", "s:" + _hx("boxcar")), ("HFT70", "s:" + _hx("HFT70")),
+            ("hft70", "s:" + _hx("hft70")), ("", "s:"), (np.kaiser, "f:npk"), (sw.kaiser, "f:spk"), (np.hanning, "f:han"), (np.blackman, "f:c1"),
+            (custom, "f:c2"), (_cg_fn, "f:c3"), (_cg_fn2, "f:c4"), (5, "o"), (None, "o"), (3.5, "o")]
+    pslls = [None, 200, 60.0, 5, 13.0, float(rng.uniform(20, 250))]
+    olaps = ["default", 0.0, 0.5, float(np.nextafter(1.0, 0.0)), 1.0, -0.1, -0.0, 1, 0, True, False, "0.3", "abc", "Default", None,
+             float("nan"), float("inf"), float(rng.uniform(0, 1)), float(rng.uniform(-2, 3)), 2 ** 60]
+    return wins, pslls, olaps
+
+
+def cg_window_run(ctx, P: C.Part, rng) -> None:
+    import speckit.analysis as A
+    wins, pslls, olaps = cg_window_cases(rng)
+    data = np.linspace(0.0, 1.0, 16)
+    saved_w, saved_o = dict(A.win_dict), dict(A.olap_dict)
+    ids = {id(np.kaiser): "npk", id(np.hanning): "han", id(np.blackman): "c1", id(_cg_fn): "c3", id(_cg_fn2): "c4"}
+    import scipy.signal.windows as sw
+    ids[id(sw.kaiser)] = "spk"
+    try:
+        for table in (0, 1):
+            A.win_dict.clear()
+            A.olap_dict.clear()
+            A.olap_dict.update(saved_o)
+            A.win_dict.update(saved_w)
+            if table == 1:            # populated tables: names found in win_dict, a lower-case key in olap_dict, a registered callable
+                A.win_dict.update({"HFT70": _cg_fn, "hft70": _cg_fn2, "boxcar": np.blackman})
+                A.olap_dict.update({"hft70": 0.722, "boxcar": 0.0})
+            wd = [(k, ids.get(id(v), "c9")) for k, v in A.win_dict.items() if isinstance(k, str)]
+            od = [(k, float(v)) for k, v in A.olap_dict.items() if isinstance(k, str)]
+            wd_tok = f"{len(wd)}" + "".join(f" {_hx(k)} {v}" for k, v in wd)
+            od_tok = f"{len(od)}" + "".join(f" {_hx(k)} {C.f2h(v)}" for k, v in od)
+            for (win, wtok) in wins:
+                if table == 0 and wtok in ("f:c3", "f:c4"):
+                    pass
+                for psll in pslls:
+                    for olap in olaps:
+                        if isinstance(olap, str):
+                            try:
+                                parse = "r:" + C.f2h(float(olap))
+                            except ValueError:
+                                parse = "n"
+                        else:
+                            parse = "n"
+                        if callable(win) and id(win) not in ids:
+                            ids[id(win)] = "c2"
+                        with quiet():
+                            try:
+                                an = A.SpectrumAnalyzer(data, 2.0, win=win, psll=psll, olap=olap)
+                                c = an.config
+                                wf = ids.get(id(c["win_func"]), "c9")
+                                al = "none" if c["alpha"] is None else "r:" + C.f2h(float(c["alpha"]))
+                                nm = "none" if c["win_name"] is None else "s:" + _hx(c["win_name"])
+                                real = f"ok {wf} {al} r:{C.f2h(float(c['final_olap']))} {nm}"
+                            except LIBERR as ex:
+                                real = "err " + _exc_name(ex)
+                        try:
+                            line = f"cgwin {wtok} {'n' if psll is None else 'r:' + C.f2h(float(psll))} {_pv(olap)} {wd_tok} {od_tok} {parse}"
+                        except (TypeError, OverflowError):
+                            continue
+                        gen = ctx.driver.ask(line)
+                        P.cases += 1
+                        P.hit("configglue:window:" + (real.split()[1] if real.startswith("err") else "ok:" + real.split()[1]))
+                        if gen != real:
+                            P.disagreements.append({"op": "cgwin", "what": f"generated _process_window_config gives {gen!r}, the real constructor {real!r} "
+                                                    f"for win={win!r} psll={psll!r} olap={olap!r} (tables {'populated' if table else 'as shipped'})",
+                                                    "case": {"win": repr(win), "psll": repr(psll), "olap": repr(olap), "table": table, "line": line}})
+                            if len(P.disagreements) > 12:
+                                return
+    finally:
+        A.win_dict.clear()
+        A.win_dict.update(saved_w)
+        A.olap_dict.clear()
+        A.olap_dict.update(saved_o)
+
+
+def cg_sched_run(ctx, P: C.Part, rng) -> None:
+    import functools
+    import speckit.analysis as A
+    from speckit import schedulers as S
+
+    def my_sched(**kw):
+        return S.ltf_plan(**kw)
+    part = functools.partial(S.ltf_plan)           # a callable without __name__
+    opts = [(s_, "s:" + _hx(s_)) for s_ in ("lpsd", "ltf", "vectorized_ltf", "new_ltf", "LTF", "new_ltf_plan", "foo", "")]
+    opts += [(S.lpsd_plan, "f:lpsd_plan"), (S.ltf_plan, "f:ltf_plan"), (S.vectorized_ltf_plan, "f:vectorized_ltf_plan"), (S.new_ltf_plan, "f:new_ltf_plan"),
+             (my_sched, f"f:c:{_hx('my_sched')}:1"), (part, "f:c:-:2"), (7, "o"), (None, "o"), (2.5, "o")]
+    data = np.linspace(0.0, 1.0, 16)
+    names = {id(S.lpsd_plan): "lpsd_plan", id(S.ltf_plan): "ltf_plan", id(S.vectorized_ltf_plan): "vectorized_ltf_plan", id(S.new_ltf_plan): "new_ltf_plan",
+             id(my_sched): f"c:{_hx('my_sched')}:1", id(part): "c:-:2"}
+    for (sc, tok) in opts:
+        with quiet():
+            try:
+                an = A.SpectrumAnalyzer(data, 2.0, scheduler=sc)
+                real = f"ok {names.get(id(an.config['scheduler_func']), '?')} {_hx(an.config['scheduler_name'])}"
+            except LIBERR as ex:
+                real = "err " + _exc_name(ex)
+        gen = ctx.driver.ask("cgsched " + tok)
+        P.cases += 1
+        P.hit("configglue:scheduler:" + ("err" if real.startswith("err") else "ok"))
+        if gen != real:
+            P.disagreements.append({"op": "cgsched", "what": f"generated _process_scheduler_config gives {gen!r}, the real constructor {real!r} for scheduler={sc!r}",
+                                    "case": {"scheduler": repr(sc)}})
+
+
+def cg_request_run(ctx, P: C.Part, rng) -> None:
+    import speckit.analysis as A
+    for i in range(ctx.scale(60, 400)):
+        N = int(rng.choice([8, 33, 64, int(rng.integers(20, 300))]))
+        fs = float(rng.choice([1.0, 2.0, 100.0, float(rng.uniform(0.5, 1e3))]))
+        data = np.random.default_rng(int(rng.integers(0, 2 ** 31))).standard_normal(N)
+        with quiet():
+            an = A.SpectrumAnalyzer(data, fs, win="hann", olap=0.5, order=0, backend="numpy")
+        kind = int(rng.integers(0, 12))
+        L = fres = None
+        if kind == 0:
+            L = int(rng.integers(1, N + 1))
+        elif kind == 1:
+            L = int(rng.choice([0, -3, N + 1, N, 1, 10 * N]))
+        elif kind == 2:
+            L = float(rng.uniform(0.2, N + 1.5))                      # int() truncates
+        elif kind == 3:
+            fres = fs / int(rng.integers(1, N + 1))
+        elif kind == 4:
+            fres = float(rng.uniform(fs / (N + 2), fs * 1.5))         # non-integer fs/fres, some clamped / too long
+        elif kind == 5:
+            fres = fs / (int(rng.integers(0, N)) + 0.5)               # ties: round half to even
+        elif kind == 6:
+            fres = float(rng.choice([2.0 * fs, 3.0 * fs, fs * (2.0 + 1e-12), fs / 0.49, 1e300, fs * 1.0000001]))   # fres > fs
+        elif kind == 7:
+            fres = float(rng.choice([0.0, -1.0, float("nan"), float("inf"), -float("inf"), 1e-300]))
+        elif kind == 8:
+            L, fres = int(rng.integers(1, N + 1)), fs / 4
+        elif kind == 9:
+            pass                                                       # neither
+        elif kind == 10:
+            fres = fs / (N + float(rng.choice([0.4, 0.5, 0.6, 1.0])))   # just around the `segL > nx` rejection
+        else:
+            L = float(rng.choice([0.9, 1.0, N + 0.9, -0.5, 1e6]))
+        freq = fs / 8.0
+        kw = {}
+        if L is not None:
+            kw["L"] = L
+        if fres is not None:
+            kw["fres"] = fres
+        with quiet():
+            try:
+                r = an.compute_single_bin(freq, **kw)
+                real = f"ok {int(r.L[0])} {C.f2h(float(r.r[0]))}"
+            except LIBERR as ex:
+                real = "err " + _exc_name(ex)
+        gen = ctx.driver.ask(f"cgreq {C.f2h(fs)} {N} {'n' if L is None else 'r:' + C.f2h(float(L))} {'n' if fres is None else 'r:' + C.f2h(float(fres))}")
+        P.cases += 1
+        P.hit("configglue:request:" + ("L" if L is not None and fres is None else "fres" if fres is not None and L is None else "both/neither")
+              + (":err" if real.startswith("err") else ":ok"))
+        if gen != real:
+            P.disagreements.append({"op": "cgreq", "what": f"generated single-bin request resolution gives {gen!r}, the real compute_single_bin {real!r} "
+                                    f"for N={N} fs={fs!r} L={L!r} fres={fres!r}", "case": {"N": N, "fs": fs, "L": L, "fres": fres}})
+
+
+class _RecSched:
+    """the real scheduler behind a recorder: every call (keyword arguments, bin count or raise) is logged and the returned dict is tagged
+    with the number of the call that produced it"""
+
+    def __init__(self, real, name: Optional[str]):
+        self.real = real
+        self.calls: List[Dict[str, Any]] = []
+        if name is not None:
+            self.__name__ = name
+
+    def __call__(self, **kw):
+        rec = {"kw": dict(kw), "nf": None}
+        self.calls.append(rec)
+        out = self.real(**kw)
+        rec["nf"] = int(out["nf"])
+        out["_cg_call"] = len(self.calls) - 1
+        return out
+
+
+def _kw_key(kw: Dict[str, Any]) -> Tuple[str, ...]:
+    return tuple("-" if k not in kw else _pv(kw[k]) for k in ("N", "fs", "olap", "bmin", "Lmin", "Kdes", "num_patch_pts", "Jdes"))
+
+
+def _plan_frame_line(ex) -> Tuple[Optional[int], bool, bool]:
+    """(line of plan() where the exception surfaced, raised below a scheduler call?, inside find_Jdes_binary_search?)"""
+    tb = ex.__traceback__
+    line, in_sched, in_search = None, False, False
+    while tb is not None:
+        co = tb.tb_frame.f_code
+        if co.co_name == "plan" and co.co_filename.endswith("analysis.py"):
+            line = tb.tb_lineno
+        if co.co_name == "__call__" and co.co_filename.endswith("C14.py"):
+            in_sched = True
+        if co.co_name == "find_Jdes_binary_search":
+            in_search = True
+        tb = tb.tb_next
+    return line, in_sched, in_search
+
+
+def cg_plan_case(ctx, P: C.Part, p: Dict[str, Any], ops: List[str], steps: Dict[str, Any]) -> Optional[Dict[str, Any]]:
+    """one analyzer (recording scheduler) driven through `ops`; the generated transformer driven through the same ops on the recorded table"""
+    from speckit import schedulers as S
+    real_fn = {"ltf": S.ltf_plan, "lpsd": S.lpsd_plan, "vectorized_ltf": S.vectorized_ltf_plan, "new_ltf": S.new_ltf_plan}[p["opts"]["scheduler"]]
+    rec = _RecSched(real_fn, p.get("sched_name", real_fn.__name__))
+    q = copy.deepcopy(p)
+    q["opts"]["scheduler"] = rec
+    with quiet():
+        try:
+            an = mk_analyzer(q)
+        except LIBERR:
+            return None
+    cfg0 = dict(an.config)
+    j0 = int(cfg0["Jdes"])
+    N = int(p["N"])
+    fails: Dict[Tuple[str, ...], Tuple[int, str]] = {}
+    real_out: List[str] = []
+    skip = None
+    for o in ops:
+        ncalls = len(rec.calls)
+        with quiet():
+            try:
+                if o == "p":
+                    r = an.plan()
+                    res = "N" if r is None else f"P:{r.get('_cg_call')}"
+                elif o == "c":
+                    r = an.compute()
+                    t = r._data.get("_cg_call")
+                    res = f"C:{t}:{t}"
+                else:
+                    an.compute_single_bin(float(p["fs"]) / 8.0, L=max(1, N // 4))
+                    res = "S"
+            except LIBERR as ex:
+                line, in_sched, in_search = _plan_frame_line(ex)
+                if in_search and in_sched:
+                    skip = "scheduler raised inside the Jdes search"
+                    break
+                if in_sched:
+                    res = "E:Other"
+                else:
+                    res = "E:" + _exc_name(ex)
+                    idx = next((i for i, (lo, hi) in enumerate(steps["steps"]) if line is not None and lo <= line <= hi), None)
+                    if idx is not None and len(rec.calls) > 0:
+                        fails[_kw_key(rec.calls[-1]["kw"])] = (idx, _exc_name(ex))
+        cache = an._plan_cache
+        real_out.append((res, int(an.config["Jdes"]), "-" if cache is None else str(cache.get("_cg_call"))))
+    if skip:
+        P.hit("configglue:plan:skipped (" + skip + ")")
+        return None
+    # table of distinct calls (first occurrence = canonical number)
+    canon: Dict[Tuple[str, ...], int] = {}
+    rows: List[str] = []
+    call_canon: List[int] = []
+    for c_ in rec.calls:
+        k = _kw_key(c_["kw"])
+        if k not in canon:
+            canon[k] = len(rows)
+            f = fails.get(k)
+            rows.append(" ".join(k) + " " + ("raise" if c_["nf"] is None else str(c_["nf"])) + (f" {f[0]} {f[1]}" if f else " -1 -"))
+        call_canon.append(canon[k])
+
+    def cz(t: str) -> str:
+        return t if t in ("None", "-") else str(call_canon[int(t)])
+    want = []
+    for (res, jd, cache) in real_out:
+        if res.startswith("P:"):
+            res = "P:" + cz(res[2:])
+        elif res.startswith("C:"):
+            a = cz(res.split(":")[1])
+            res = f"C:{a}:{a}"
+        want.append(f"{res},{jd},{cz(cache)}")
+    name = getattr(rec, "__name__", None)
+    npp = cfg0.get("num_patch_pts")
+    line = (f"cgrun {int(an.nx)} {C.f2h(an.fs)} {_pv(cfg0['olap'])} {C.f2h(cfg0['bmin'])} {cfg0['Lmin']} {cfg0['Kdes']} {'n' if npp is None else int(npp)} "
+            f"{cfg0['order']} {C.f2h(float(cfg0['final_olap']))} {1 if cfg0['force_target_nf'] else 0} {0 if cfg0['band'] is None else 1} "
+            f"{'-' if name is None else _hx(name)} {j0} {len(rows)} " + " ".join(rows) + f" {len(ops)} " + " ".join(ops))
+    gen = ctx.driver.ask(line).split()
+    # the generated side also reports how many tail statements ran on a plan object: all of them (minus the band statement without a band)
+    full = steps["nsteps"] - (0 if cfg0["band"] is not None else 1)
+    got = []
+    done_ok = True
+    for g in gen:
+        parts = g.split(",")
+        if len(parts) != 3:
+            got.append(g)
+            continue
+        r0, jd, ca = parts
+        if r0.startswith("P:"):
+            done_ok &= r0.split(":")[2] == str(full)
+            r0 = "P:" + r0.split(":")[1]
+        if ca != "-":
+            ca = ca.split(":")[0]
+        got.append(f"{r0},{jd},{ca}")
+    P.cases += len(ops)
+    if got != want or not done_ok:
+        return {"op": "cgrun", "what": f"generated plan()/compute() transformer gives {got} (all tail statements ran on returned plans: {done_ok}), the real analyzer {want} "
+                f"for ops {ops} (scheduler {p['opts']['scheduler']}, force_target_nf={cfg0['force_target_nf']}, band={cfg0['band']}, Jdes={j0})",
+                "case": {"N": N, "fs": p["fs"], "opts": {k: (v if not callable(v) else repr(v)) for k, v in p["opts"].items()}, "ops": ops, "line": line[:2000]}}
+    return {"ok": True, "real": want, "calls": len(rec.calls)}
+
+
+def cg_plan_run(ctx, P: C.Part, rng) -> None:
+    from vk.regions import config_glue as CGT
+    try:
+        steps = CGT.tail_step_ranges(C.REPO)
+    except Exception as ex:      # the translator rejected plan(): reported as a broken region already
+        P.notes.append(f"configglue: plan() differential not run ({ex})"[:200])
+        return
+    t_end = time.time() + (60.0 if ctx.thorough else 9.0)
+    n = 0
+    for i in range(ctx.scale(40, 300)):
+        if time.time() > t_end:
+            P.notes.append("time budget reached (configglue plan differential)")
+            break
+        N = int(rng.integers(150, 420))
+        fs = float(rng.choice([1.0, 2.0, 100.0]))
+        o = _an.options(rng, N)
+        force = bool(rng.random() < 0.55)
+        if o["scheduler"] == "vectorized_ltf" and force:
+            o["scheduler"] = str(rng.choice(["ltf", "lpsd", "new_ltf"]))
+        c = {"dseed": int(rng.integers(0, 2 ** 31 - 1)), "N": N, "fs": fs, "cross": False, "kind": "noise", "kind2": "noise", "layout": "2xN", "opts": o}
+        if rng.random() < 0.2:
+            o["olap"] = "default"
+        if rng.random() < 0.5:
+            o["num_patch_pts"] = int(rng.choice([5, 20, 50])) if rng.random() < 0.8 else None
+        if force:
+            if rng.random() < 0.8:
+                force_target(c, int(rng.integers(100, 300)))          # a bin count the scheduler really produces
+            else:
+                o["force_target_nf"] = True
+                o["Jdes"] = int(rng.choice([1, 3, 10 ** 5]))            # (probably) unreachable: the search returns None
+        u = rng.random()
+        if u < 0.25:
+            o["band"] = [fs * 0.02, fs * 0.3]
+        elif u < 0.5:
+            o["band"] = [fs * 10.0, fs * 20.0]                          # empty: plan() raises in the band statement AFTER the config write
+        elif u < 0.55:
+            o["band"] = [fs * 0.3, fs * 0.02]                           # invalid
+        if rng.random() < 0.15:
+            o["Lmin"] = int(N // 3)                                     # validation failures for plans with short segments
+        if rng.random() < 0.12:
+            c["sched_name"] = str(rng.choice(["new_ltf_plan", "custom", "lpsd_plan"]))   # the name test is by __name__, whatever the callable does
+        ops = [str(rng.choice(["p", "p", "c", "s"])) for _ in range(int(rng.integers(2, 6)))]
+        r = cg_plan_case(ctx, P, c, ops, steps)
+        if r is None:
+            continue
+        n += 1
+        P.hit("configglue:plan:" + o["scheduler"] + (":force" if o.get("force_target_nf") else ""))
+        if "ok" not in r:
+            P.disagreements.append(r)
+            if len(P.disagreements) > 12:
+                return
+        else:
+            if any(x.startswith("E:") for x in r["real"]):
+                P.hit("configglue:plan:history with a failing call")
+            js = [x.split(",")[1] for x in r["real"]]
+            if o.get("force_target_nf") and len(set(js)) > 1:
+                P.hit("configglue:plan:Jdes rewritten more than once in one history")
+    # the error path of DESIGN §8.3 (i), on the real code: force_target_nf + a band that is empty -> plan() raises after the config write
+    N, fs = 300, 1.0
+    c = {"dseed": 7, "N": N, "fs": fs, "cross": False, "kind": "noise", "kind2": "noise", "layout": "2xN",
+         "opts": {"order": 0, "olap": 0.5, "Jdes": 150, "Kdes": 10, "bmin": 1.0, "Lmin": 1, "scheduler": "ltf", "win": "hann", "band": [fs * 10.0, fs * 20.0]}}
+    force_target(c, 150)
+    r = cg_plan_case(ctx, P, c, ["p", "p", "p"], steps)
+    if r is not None and "ok" in r:
+        first = r["real"][0].split(",")
+        if first[0].startswith("E:") and int(first[1]) != int(c["opts"]["Jdes"]):
+            P.hit("configglue:witness: config['Jdes'] overwritten by a plan() call that raised (real code and generated transformer agree)")
+            P.notes.append(f"configglue witness (real code): force_target_nf, target {c['opts']['Jdes']}, empty band: plan() x3 -> {r['real']} "
+                           "(result, config['Jdes'], cache) — the failed call leaves Jdes overwritten, the next call searches for that value")
+    elif r is not None:
+        P.disagreements.append(r)
+
+
+def configglue_correspondence(ctx, P: C.Part, seed: int) -> None:
+    if ctx.driver is None:
+        return
+    rng = np.random.default_rng([int(seed), 1414])
+    t0 = time.time()
+    for fn in (cg_window_run, cg_sched_run, cg_request_run, cg_plan_run):
+        try:
+            fn(ctx, P, rng)
+        except RuntimeError as ex:       # driver error (e.g. the generated code no longer compiles into the running driver)
+            P.disagreements.append({"op": "configglue", "what": f"{fn.__name__}: {ex!r}"[:300]})
+    P.notes.append(f"configglue differential: {time.time() - t0:.1f}s")
+
+
 # ------------------------------------------------------------------------------------------------ correspondence
 def correspondence(ctx) -> C.Part:
     """the state-machine models are abstract (no driver op): the real objects are run against the models' PREDICTIONS —
@@ -890,6 +1398,8 @@ def correspondence(ctx) -> C.Part:
         P.notes.append("cf_rad_unwrapped / cf_deg_unwrapped are cross-bin (np.unwrap): not in the per-bin generated table; covered by the oracle's access-order runs only")
     if ctx.driver is not None and names:
         _an.attr_correspondence(ctx, P, names, ctx.scale(6, 60))
+    # region ConfigGlue: generated decision / state logic vs the real class (own random stream, seeded by one integer drawn at the end)
+    configglue_correspondence(ctx, P, int(rng.integers(0, 2 ** 31 - 1)))
     return P
 
 
